@@ -718,16 +718,26 @@ package mail
 //@   requires[C01:wf] m != nil && (forall i :: 0 <= i && i < len(m.parts) ==> m.parts[i] != nil)
 //@   ensures[C01:no-alternative-means-one-body] (!r && m.pgptype == 0) ==> atmostonelive(m)
 //@   loop 1 invariant[C01:count] 0 <= count && 0 <= rangeindex + 1 && (count <= 1 ==> (forall k, l :: 0 <= k && k < l && l <= rangeindex && l < len(m.parts) ==> !(plive(m.parts[k]) && plive(m.parts[l])))) && (count == 0 ==> (forall k :: 0 <= k && k <= rangeindex && k < len(m.parts) ==> !plive(m.parts[k])))
+// anycontent: the Msg has a part that is not an S/MIME signature part. The signature part is appended to
+// m.parts by signMessage; the layer decisions must be the same with and without it (C08: the entity that is
+// hashed is the entity that is emitted).
+//@ pred anycontent(m *mail.Msg) = exists i :: 0 <= i && i < len(m.parts) && !m.parts[i].smime
+//@ func mail.Msg.hasContentParts () (r)
+//@   requires[C01,C08:wf] m != nil && (forall i :: 0 <= i && i < len(m.parts) ==> m.parts[i] != nil)
+//@   ensures[C01,C08:def] r <==> anycontent(m)
+//@   loop 1 invariant[C01,C08:none-so-far] 0 <= rangeindex + 1 && (forall k :: 0 <= k && k <= rangeindex && k < len(m.parts) ==> m.parts[k].smime)
 //@ func mail.Msg.hasMixed () (r)
-//@   requires[C01:wf] m != nil
-//@   ensures[C01:no-mixed-means-nothing-beside-an-attachment] (!r && m.pgptype == 0) ==> (len(m.attachments) <= 1 && (len(m.attachments) == 0 || (len(m.parts) == 0 && len(m.embeds) == 0)))
+//@   requires[C01,C08:wf] m != nil && (forall i :: 0 <= i && i < len(m.parts) ==> m.parts[i] != nil)
+//@   ensures[C01:no-mixed-means-nothing-beside-an-attachment] (!r && m.pgptype == 0) ==> (len(m.attachments) <= 1 && (len(m.attachments) == 0 || (!anycontent(m) && len(m.embeds) == 0)))
+//@   ensures[C08:signature-parts-do-not-count] r == (m.pgptype == 0 && (((anycontent(m) || len(m.embeds) > 0) && len(m.attachments) > 0) || len(m.attachments) > 1))
 //@ func mail.Msg.hasRelated () (r)
-//@   requires[C01:wf] m != nil
-//@   ensures[C01:no-related-means-nothing-beside-an-embed] (!r && m.pgptype == 0) ==> (len(m.embeds) <= 1 && (len(m.embeds) == 0 || len(m.parts) == 0))
+//@   requires[C01,C08:wf] m != nil && (forall i :: 0 <= i && i < len(m.parts) ==> m.parts[i] != nil)
+//@   ensures[C01:no-related-means-nothing-beside-an-embed] (!r && m.pgptype == 0) ==> (len(m.embeds) <= 1 && (len(m.embeds) == 0 || !anycontent(m)))
+//@   ensures[C08:signature-parts-do-not-count] r == (m.pgptype == 0 && ((anycontent(m) && len(m.embeds) > 0) || len(m.embeds) > 1))
 //@ func mail.Msg.hasPGPType () (r)
 //@   requires[C01:wf] m != nil
 //@   ensures[C01:def] r == (m.pgptype > 0)
-//@ at mail.msgWriter.writePart mail.msgWriter.writeHeader#1 before ghost[C01:g] mw.top = mw.top + 1
+//@ at mail.msgWriter.writePart mail.msgWriter.writeString#1 before ghost[C01:g] mw.top = mw.top + 1
 //@ func mail.msgWriter.writePart (part, charset)
 //@   requires[C01:single-top-leaf] mw.depth == 0 ==> mw.top == 0
 //@   ensures[C01:top-count] mw.top == old(mw.top) + (old(mw.depth) == 0 ? 1 : 0)
@@ -762,3 +772,13 @@ package mail
 //@   loop 1 invariant[C18:line] hkeyok(key) ==> (wordsafe(words) && (forall j :: 0 <= j && j < len(words) ==> noblank(words[j])) && buffer.lcol + charLength == 74 && buffer.lcol >= 1 && (buffer.lcol > 74 ==> buffer.lstate == 1) && 0 <= rangeindex + 1)
 //@ at mail.msgWriter.writeHeader strings.Builder.WriteString#3 before assert[C18:header-line-length-at-fold] hkeyok(key) ==> (buffer.lcol <= 78 || buffer.lstate == 1)
 //@ at mail.msgWriter.writeHeader strings.Builder.String#1 before assert[C18:header-line-length] hkeyok(key) ==> (buffer.lcol <= 78 || buffer.lstate == 1)
+
+// C08 (continued): a body part is written with the same header fields at every nesting depth - the signed
+// entity is rendered at depth 0 for hashing and at depth 1 inside multipart/signed
+//@ ghost field descr bool
+//@ at mail.msgWriter.writePart entry ghost[C08:g] mw.descr = false
+//@ at mail.msgWriter.writePart mail.msgWriter.writeHeader#1 after ghost[C08:g] mw.descr = (mw.descr || arg1 == "Content-Description")
+//@ at mail.msgWriter.writePart textproto.MIMEHeader.Add#1 after ghost[C08:g] mw.descr = (mw.descr || arg1 == "Content-Description")
+//@ func mail.msgWriter.writePart (part, charset)
+//@   requires[C08:wf] mw != nil && part != nil
+//@   ensures[C08:description-at-every-depth] part.description != "" ==> mw.descr
